@@ -124,7 +124,7 @@ var anchorPatterns = map[string][]string{
 		`^anchoring\.`, `^criteria_bounding\.`, `^model\.(GetScaleRatio|GetNormalScaleRatio|CriteriaValuesRange|UpdateAlternatives)$`,
 		`^utils\.\(\*(ExpFromZeroFunction|LinearFunctionParameters)\)\.Evaluate$`, `^utils\.\(\*ValueRange\)\.(Diff|ScaleEqually)$`,
 		`^model\.\(\*AlternativeWithCriteria\)\.(CriterionValue|WithCriterion|WithCriteriaValues)$`, `^model\.\(\*Criterion\)\.IsGain$`},
-	"C20": {`^global:main\.`, `^type:main\.`, `^type:model\.(DecisionMaker|DecisionMakerChoice|Criterion|BiasParams)$`, `^satisfaction_levels\.\(\*(IdealCoefficientSatisfactionLevels|IncreasingCoefficientManager|DecreasingCoefficientManager|ThresholdSatisfactionLevels)\)\.`, `^global:satisfaction_levels\.`, `^global:electreIII\.`,
+	"C20": {`\.\(\*\w+\)\.MethodParameters$`, `^global:main\.`, `^type:main\.`, `^type:model\.(DecisionMaker|DecisionMakerChoice|Criterion|BiasParams)$`, `^satisfaction_levels\.\(\*(IdealCoefficientSatisfactionLevels|IncreasingCoefficientManager|DecreasingCoefficientManager|ThresholdSatisfactionLevels)\)\.`, `^global:satisfaction_levels\.`, `^global:electreIII\.`,
 		`^main\.`, `^model\.\(\*DecisionMaker\)\.(MakeDecision|validateAlternatives|prepareParams)$`, `^model\.\(\*Criteria\)\.(Validate|FindWeight)$`,
 		`^model\.\(\*(PreferenceFunctions|BiasListeners)\)\.(Fetch|FetchParameters)$`, `^model\.(ChooseBiases|FetchAlternative|ExtractWeights|IsStringBlank)$`,
 		`^model\.\(\*Weights\)\.Fetch$`, `^model\.\(\*AlternativeWithCriteria\)\.CriterionRawValue$`,
